@@ -37,3 +37,39 @@ def nnls_enum(A, y):
                 x[list(S)] = xs
                 best = (r, x, S)
     return best
+
+
+def f13_regime(A, y, kappa=None):
+    """Regime in which scipy 1.14's NNLS (Lawson-Hanson on the normal equations A^T A with the absolute
+    tolerance tol_abs = 10*max(m,n)*eps on gradient and coefficients) cannot be expected to return the optimum
+    (known finding F13); clauses as in vf.props.c01.f13_predicate.  -> dict of clause -> bool."""
+    from vf import tol as T
+
+    A = np.asarray(A, dtype=float)
+    y = np.asarray(y, dtype=float)
+    m, n = A.shape
+    if n == 0:
+        return {"ill_conditioned": False, "abs_tolerance": False, "huge_scale": False}
+    if kappa is None:
+        sv = np.linalg.svd(A, compute_uv=False)
+        kappa = float(sv[0] / sv[-1]) if sv[-1] > 0 else float("inf")
+    mm = max(m, n)
+    tol_abs = 10 * mm * T.EPS
+
+    def nrm(v, axis=None):
+        v = np.asarray(v, dtype=float)
+        mx = np.max(np.abs(v), axis=axis, keepdims=axis is not None) if v.size else 0.0
+        mx = np.where(mx > 0, mx, 1.0)
+        out = np.linalg.norm(v / mx, axis=axis) * (np.squeeze(mx, axis=axis) if axis is not None else mx)
+        return out if axis is not None else float(out)
+
+    coln = nrm(A, axis=0)
+    ny = nrm(y)
+    tj = T.C * T.EPS * mm * coln * ny
+    with np.errstate(all="ignore"):
+        g = float(np.max(np.abs(A.T @ y))) if y.size else 0.0
+    return {
+        "ill_conditioned": bool(kappa * kappa >= T.C * mm),
+        "abs_tolerance": bool(tol_abs > tj.min() or tol_abs >= 1e-3 * ny / max(coln.max(), 1e-300)),
+        "huge_scale": bool(not np.isfinite(g) or T.EPS * g > tol_abs),
+    }
